@@ -1007,6 +1007,40 @@ def rule_pb_propagate(ctx):
         r.ok(construct=key + ':%d' % i, nontrivial=True, sample='Function.pullback, %s: lookup -> `%s` -> restoration test' % (kind[0], norm(path[calls[-1]])[:40]))
     if n == 0:
         r.unknown(fi.site(), 'no returning path with a Taylor-polynomial node output found')
+    # the reverse loop of CGraph.pullback calls the per-node pullback for every node: no `continue`, no guard in front of the call
+    from .model import seq_iteration
+    cp = m.func(TRACER, 'CGraph.pullback')
+    rev = [st for st in cp.node.body if isinstance(st, ast.For) and (seq_iteration(st) or (None, None))[1] == 'rev'
+           and (seq_iteration(st) or ('',))[0] == 'self.functionList']
+    if len(rev) != 1:
+        r.unknown(cp.site(), 'reverse loop over self.functionList not found in CGraph.pullback')
+    else:
+        lp = rev[0]
+
+        def has_call(node):
+            return any(isinstance(c, ast.Call) and isinstance(c.func, ast.Attribute) and c.func.attr == 'pullback' for c in ast.walk(node))
+        n_lp = 0
+        for path in _paths(lp.body):
+            n_lp += 1
+            reached = False
+            why = None
+            for s_ in path:
+                if isinstance(s_, tuple):
+                    continue
+                if isinstance(s_, (ast.Continue, ast.Break)):
+                    why = 'leaves the iteration with `%s`' % type(s_).__name__.lower()
+                    break
+                if has_call(s_):
+                    reached = True
+                    break
+            if reached:
+                r.ok(construct='reverse-loop:path%d' % n_lp, nontrivial=True, sample='CGraph.pullback: the per-node pullback is called on every path through the loop body')
+            else:
+                conds = [('' if t[2] else 'not ') + norm(t[1])[:50] for t in path if isinstance(t, tuple) and len(t) > 2]
+                r.bad(Finding('R-pb-propagate', _f(cp), 'reverse-loop:skip:' + '|'.join(conds)[:80],
+                              'CGraph.pullback: on the path [%s] an iteration of the reverse loop %s before the per-node pullback is called: the node neither propagates its '
+                              'adjoint nor rolls its buffer back (a test of `xbar.data[0]` sees coefficient 0 only)'
+                              % (', '.join(conds), why or 'ends'), cp.file, lp.lineno))
     r.floor = 3
     return r
 
@@ -1046,6 +1080,110 @@ def rule_graph_capture(ctx):
                 else:
                     r.ok(construct='%s:self.%s' % (fi.name, t.attr), sample='CGraph.%s: `%s` (roots %s)' % (fi.name, norm(st)[:60], sorted(roots)[:3]))
     r.floor = 3
+    return r
+
+
+# (kernel, position of the scalar parameter) -> (value, reason): the operation is constant in its operand for that value
+CONSTANT_CASES = {('_pb_pow_real', 2): (0, 'x**0 is the constant 1, its adjoint contribution is zero')}
+
+
+def _int_test(t, env):
+    """truth of a test over integer-valued names (comparisons with integer constants, `type(x) == int`, and/or/not); None if not understood"""
+    def val(e):
+        if isinstance(e, ast.Constant) and isinstance(e.value, int) and not isinstance(e.value, bool):
+            return e.value
+        if isinstance(e, ast.Name) and e.id in env:
+            return env[e.id]
+        if isinstance(e, ast.UnaryOp) and isinstance(e.op, ast.USub):
+            v = val(e.operand)
+            return None if v is None else -v
+        return None
+    if isinstance(t, ast.BoolOp):
+        vs = [_int_test(v, env) for v in t.values]
+        if any(v is None for v in vs):
+            return None
+        return all(vs) if isinstance(t.op, ast.And) else any(vs)
+    if isinstance(t, ast.UnaryOp) and isinstance(t.op, ast.Not):
+        v = _int_test(t.operand, env)
+        return None if v is None else not v
+    if isinstance(t, ast.Compare) and len(t.ops) == 1:
+        if norm(t.left).startswith('type(') and isinstance(t.left, ast.Call) and len(t.left.args) == 1 and isinstance(t.left.args[0], ast.Name) \
+                and t.left.args[0].id in env and isinstance(t.ops[0], (ast.Eq, ast.Is)) and norm(t.comparators[0]) == 'int':
+            return True
+        a, b = val(t.left), val(t.comparators[0])
+        if a is None or b is None:
+            return None
+        op = type(t.ops[0])
+        table = {ast.Eq: a == b, ast.NotEq: a != b, ast.Lt: a < b, ast.LtE: a <= b, ast.Gt: a > b, ast.GtE: a >= b}
+        return table.get(op)
+    if isinstance(t, ast.Call) and norm(t.func) == 'isinstance' and len(t.args) == 2 and isinstance(t.args[0], ast.Name) and t.args[0].id in env:
+        return 'int' in norm(t.args[1])
+    return None
+
+
+def rule_pb_kernel_out(ctx):
+    r = RuleResult('R-pb-kernel-out', 'every feasible returning path of a pullback kernel (`_pb_*`, `*_pullback`) writes into its `out` storage: a branch of an '
+                                      'option / exponent / operand-kind test that falls through without a contribution returns a zero adjoint. Accepted: the path '
+                                      'on which `out` shares memory with the incoming adjoint (view-mirroring)')
+    from .rules_api import _paths
+    eff = ctx.effects
+    n = 0
+    for fi in pb_kernels(ctx):
+        sm = eff.sums[fi]
+        if 'out' not in fi.params:
+            continue
+        evs = [ev for ev in sm.events if any(x[0] == 'p' and x[1].startswith('out') for x in ev.roots)]
+        for i, path in enumerate(_paths(fi.node.body)):
+            stmts = [s_ for s_ in path if not isinstance(s_, tuple)]
+            if not stmts or isinstance(stmts[-1], ast.Raise):
+                continue
+            tests = [(t[1], t[2]) for t in path if isinstance(t, tuple) and len(t) > 2]
+            if not _feasible(tests):
+                continue
+            n += 1
+            inside = {id(x) for s_ in stmts for x in ast.walk(s_)}
+            if any(id(ev.node) in inside for ev in evs):
+                r.ok(construct='%s:path%d' % (_f(fi), i), nontrivial=True, sample='%s: `out` is written on path %d' % (fi.qualname, i))
+                continue
+            shares = any(('numpy.may_share_memory(out' in norm(t) or 'numpy.shares_memory(out' in norm(t)) and (o != (isinstance(t, ast.UnaryOp) and isinstance(t.op, ast.Not)))
+                         for t, o in tests)
+            if shares:
+                r.ok(construct='%s:path%d:view' % (_f(fi), i), sample='%s: `out` shares memory with the incoming adjoint on path %d' % (fi.qualname, i))
+                continue
+            # a path that pins a scalar parameter to the one value for which the operation is constant (x**0)
+            pinned = None
+            for (kname, pos), (val, why) in CONSTANT_CASES.items():
+                if fi.name == kname and pos < len(fi.value_params()):
+                    pn = fi.value_params()[pos]
+                    sat = []
+                    for cand in range(-3, 4):
+                        ok = True
+                        for t, o in tests:
+                            names_ = {x.id for x in ast.walk(t) if isinstance(x, ast.Name)}
+                            if pn not in names_:
+                                continue
+                            v_ = _int_test(t, {pn: cand})
+                            if v_ is None:
+                                ok = None
+                                break
+                            if bool(v_) != bool(o):
+                                ok = False
+                                break
+                        if ok:
+                            sat.append(cand)
+                        if ok is None:
+                            sat = None
+                            break
+                    if sat == [val]:
+                        pinned = (pn, val, why)
+            if pinned:
+                r.note('%s: the path without a contribution fixes `%s` = %s: %s' % (fi.qualname, pinned[0], pinned[1], pinned[2]))
+                r.ok(construct='%s:path%d:constant-case' % (_f(fi), i))
+                continue
+            conds = [('' if o else 'not ') + norm(t)[:40] for t, o in tests]
+            r.bad(Finding('R-pb-kernel-out', _f(fi), 'path:' + '|'.join(conds)[:100], '%s returns on the path [%s] without writing into `out`: the operand receives a zero '
+                                                                                       'adjoint there' % (fi.qualname, ', '.join(conds)), fi.file, fi.lineno))
+    r.floor = 40
     return r
 
 
